@@ -78,8 +78,12 @@ func (c *Ctx) readFile(path string) ([]byte, error) {
 	return os.ReadFile(path)
 }
 
+// lastCtx: the context of the load in progress, for helpers that compare SSA values and need the program (pure-getter summaries)
+var lastCtx *Ctx
+
 func NewCtx(repo string) *Ctx {
-	return &Ctx{RepoDir: repo, memo: map[string]interface{}{}}
+	lastCtx = &Ctx{RepoDir: repo, memo: map[string]interface{}{}}
+	return lastCtx
 }
 
 func goEnv() []string {
